@@ -104,7 +104,17 @@ async def run_history(
     *,
     hooks: dict | None = None,
 ) -> tuple[Outcome | None, dict]:
-    """Execute the history. Returns (violation or None, info)."""
+    """Execute the history (optionally with the library logging at DEBUG). Returns (violation or None, info)."""
+    with env.debug_logging(bool(case.get("debug_log"))):
+        return await _run_history(case, aspects, hooks=hooks)
+
+
+async def _run_history(
+    case: dict,
+    aspects: frozenset[str],
+    *,
+    hooks: dict | None = None,
+) -> tuple[Outcome | None, dict]:
     hooks = hooks or {}
     version = case.get("version")
     metric = case.get("metric", True)
@@ -298,6 +308,8 @@ async def run_history(
         want_req = []
         if rec.outcome in ("missing_node", "missing_child") and pred.presreq_node is not None:
             want_req = [f"{pred.presreq_node};255;3;0;19;\n"]
+        if pred.presreq_either and rec.outcome in ("missing_node", "missing_child") and requests in ([], [f"{pred.missing_node_for_episode};255;3;0;19;\n"]):
+            want_req = requests  # unspecified episode state (the node presented itself under 1.x rules)
         if requests != want_req:
             if "presreq" in aspects:
                 if want_req and not requests:
